@@ -1,10 +1,19 @@
 import ArimModel.ScatMat
+import ArimProofs.Lemmas.ScatMat
 import Mathlib.Analysis.SpecialFunctions.Trigonometric.Basic
 import Mathlib.Analysis.SpecialFunctions.Complex.Log
 import Mathlib.Algebra.BigOperators.Group.Finset.Basic
+import Mathlib.Algebra.Order.Floor.Ring
+import Mathlib.Data.Rat.Floor
+import Mathlib.Tactic.FieldSimp
+import Mathlib.Tactic.Ring
+import Mathlib.Tactic.Positivity
+import Mathlib.Tactic.Linarith
+import Mathlib.Tactic.LinearCombination
+import Mathlib.Tactic.NormNum
 /-! # C10 — scattering matrices faithfully represent, interpolate and rotate the functions -/
 namespace Arim.C10
-open Arim.ScatMat
+open Arim.ScatMat Arim.ScatMatLemmas
 open Complex Finset
 open scoped Real
 
@@ -45,6 +54,491 @@ theorem idft_periodic (X : ℕ → ℂ) (n : ℕ) (hn : n ≠ 0) (j : ℤ) :
     push_cast
     field_simp
   rw [this, exp_add, exp_int_mul_two_pi_mul_I, mul_one]
+
+/-- periodicity over any number of periods -/
+theorem idft_add_mul (X : ℕ → ℂ) (n : ℕ) (hn : n ≠ 0) (j q : ℤ) :
+    idft X n (j + n * q) = idft X n j := by
+  unfold idft
+  congr 1
+  apply sum_congr rfl
+  intro k _
+  congr 1
+  have hn' : (n : ℂ) ≠ 0 := by exact_mod_cast hn
+  have : 2 * π * I * (((j + n * q : ℤ) : ℂ) * k / n) = 2 * π * I * (j * k / n) + ((q * k : ℤ)) * (2 * π * I) := by
+    push_cast
+    field_simp
+  rw [this, exp_add, exp_int_mul_two_pi_mul_I, mul_one]
+
+/-- the sample index only matters modulo `n` -/
+theorem idft_emod (X : ℕ → ℂ) (n : ℕ) (hn : n ≠ 0) (j : ℤ) :
+    idft X n (j % n) = idft X n j := by
+  conv_rhs => rw [← Int.emod_add_mul_ediv j n]
+  rw [idft_add_mul X n hn]
+
+/-- linearity of the back-transform -/
+theorem idft_const_mul (c : ℂ) (X : ℕ → ℂ) (n : ℕ) (j : ℤ) :
+    idft (fun k => c * X k) n j = c * idft X n j := by
+  unfold idft
+  simp only [mul_sum]
+  apply sum_congr rfl
+  intro k _
+  ring
+
+/-- 2-D inverse DFT: `idft` along the second index, then along the first -/
+def idft2 (X : ℕ → ℕ → ℂ) (n : ℕ) (a b : ℤ) : ℂ :=
+  idft (fun k₁ => idft (fun k₂ => X k₁ k₂) n b) n a
+
+/-- **2-D shift theorem**: multiplying bin `(k₁, k₂)` by `e^{-2πi (k₁ + k₂) m/n}` (the
+`freqshift` of `rotate_matrix` for `φ = 2πm/n`, see `freqshift_eq`) shifts both indices of the
+back-transformed matrix by `m` -/
+theorem idft2_shift (X : ℕ → ℕ → ℂ) (n : ℕ) (a b m : ℤ) :
+    idft2 (fun k₁ k₂ => X k₁ k₂ * exp (-(2 * π * I * (m * k₁ / n))) * exp (-(2 * π * I * (m * k₂ / n))))
+      n a b = idft2 X n (a - m) (b - m) := by
+  unfold idft2
+  rw [← idft_shift]
+  congr 1
+  funext k₁
+  rw [← idft_shift, mul_comm (idft _ n b), ← idft_const_mul]
+  congr 1
+  funext k₂
+  ring
+
+/-- the 2-D back-transform is `n`-periodic in both indices -/
+theorem idft2_periodic (X : ℕ → ℕ → ℂ) (n : ℕ) (hn : n ≠ 0) (a b : ℤ) :
+    idft2 X n (a + n) b = idft2 X n a b ∧ idft2 X n a (b + n) = idft2 X n a b := by
+  unfold idft2
+  refine ⟨idft_periodic _ n hn a, ?_⟩
+  congr 1
+  funext k₁
+  exact idft_periodic _ n hn b
+
+/-- both indices of the 2-D back-transform only matter modulo `n` -/
+theorem idft2_emod (X : ℕ → ℕ → ℂ) (n : ℕ) (hn : n ≠ 0) (a b : ℤ) :
+    idft2 X n (a % n) (b % n) = idft2 X n a b := by
+  unfold idft2
+  rw [idft_emod _ n hn a]
+  congr 1
+  funext k₁
+  exact idft_emod _ n hn b
+
+/-- **DFT inversion** (`ifft (fft x) = x`), by orthogonality of the `n`-th roots of unity -/
+theorem idft_dft (x : ℕ → ℂ) (n : ℕ) (j : ℕ) (hj : j < n) :
+    idft (fun k => ∑ l ∈ range n, x l * exp (-(2 * π * I * (l * k / n)))) n j = x j := by
+  have hn : n ≠ 0 := by omega
+  have hn' : (n : ℂ) ≠ 0 := by exact_mod_cast hn
+  unfold idft
+  simp_rw [sum_mul]
+  rw [sum_comm]
+  have : ∀ l ∈ range n, ∑ k ∈ range n, x l * exp (-(2 * π * I * (l * k / n))) * exp (2 * π * I * ((j : ℤ) * k / n))
+      = if l = j then x j * n else 0 := by
+    intro l hl
+    have hl' : l < n := mem_range.1 hl
+    have e : ∀ k : ℕ, x l * exp (-(2 * π * I * (l * k / n))) * exp (2 * π * I * ((j : ℤ) * k / n))
+        = x l * exp (2 * π * I * (((j - l : ℤ) : ℂ) * k / n)) := by
+      intro k
+      rw [mul_assoc, ← exp_add]
+      congr 2
+      push_cast
+      ring
+    simp_rw [e, ← mul_sum]
+    split_ifs with h
+    · subst h
+      simp
+    · rw [sum_exp_eq_zero n _ _ hn, mul_zero]
+      intro hdvd
+      have := Int.eq_zero_of_abs_lt_dvd hdvd (by rw [abs_lt]; omega)
+      omega
+  rw [sum_congr rfl this, sum_ite_eq' (range n) j, if_pos (mem_range.2 hj)]
+  field_simp
+
+/-- linearity of the back-transform (constant on the right) -/
+theorem idft_mul_const (c : ℂ) (X : ℕ → ℂ) (n : ℕ) (j : ℤ) :
+    idft (fun k => X k * c) n j = idft X n j * c := by
+  rw [mul_comm, ← idft_const_mul]
+  congr 1
+  funext k
+  ring
+
+/-- linearity of the back-transform (finite sums) -/
+theorem idft_sum {ι : Type} (s : Finset ι) (Y : ι → ℕ → ℂ) (n : ℕ) (j : ℤ) :
+    idft (fun k => ∑ a ∈ s, Y a k) n j = ∑ a ∈ s, idft (Y a) n j := by
+  unfold idft
+  simp_rw [sum_mul]
+  rw [sum_comm, mul_sum]
+
+/-- forward DFT (`numpy.fft.fft`) -/
+def dft (x : ℕ → ℂ) (n : ℕ) (k : ℕ) : ℂ :=
+  ∑ l ∈ range n, x l * exp (-(2 * π * I * (l * k / n)))
+
+/-- 2-D forward DFT (`numpy.fft.fft2`): along the second index, then along the first -/
+def dft2 (M : ℕ → ℕ → ℂ) (n : ℕ) (k₁ k₂ : ℕ) : ℂ :=
+  dft (fun a => dft (fun b => M a b) n k₂) n k₁
+
+/-- DFT inversion, stated with `dft` -/
+theorem idft_comp_dft (x : ℕ → ℂ) (n : ℕ) (j : ℕ) (hj : j < n) : idft (dft x n) n j = x j :=
+  idft_dft x n j hj
+
+/-- **2-D DFT inversion** (`ifft2 (fft2 M) = M`) -/
+theorem idft2_dft2 (M : ℕ → ℕ → ℂ) (n : ℕ) (a b : ℕ) (ha : a < n) (hb : b < n) :
+    idft2 (dft2 M n) n a b = M a b := by
+  unfold idft2
+  have : ∀ k₁ : ℕ, idft (fun k₂ => dft2 M n k₁ k₂) n b = dft (fun a => M a b) n k₁ := by
+    intro k₁
+    unfold dft2
+    conv_lhs => unfold dft
+    rw [idft_sum]
+    conv_rhs => unfold dft
+    apply sum_congr rfl
+    intro l _
+    rw [idft_mul_const]
+    congr 1
+    exact idft_dft _ n b hb
+  simp_rw [this]
+  exact idft_dft _ n a ha
+
+/-- **rotation by `m` grid steps through the DFT** (`rotate_matrix(M, 2πm/n)`): transforming,
+multiplying bin `(k₁, k₂)` by `e^{-2πi (k₁+k₂) m/n}` and transforming back shifts both indices
+circularly by `m` -/
+theorem rotate_shift (M : ℕ → ℕ → ℂ) (n : ℕ) (m : ℤ) (j i : ℕ) (hj : j < n) (hi : i < n) :
+    idft2 (fun k₁ k₂ => dft2 M n k₁ k₂ * exp (-(2 * π * I * (m * k₁ / n)))
+        * exp (-(2 * π * I * (m * k₂ / n)))) n j i = rotateShift n M m j i := by
+  have hn : n ≠ 0 := by omega
+  have hnz : (0:ℤ) < n := by exact_mod_cast Nat.pos_of_ne_zero hn
+  rw [idft2_shift, ← idft2_emod _ n hn]
+  have h1 := Int.emod_nonneg ((j:ℤ) - m) hnz.ne'
+  have h2 := Int.emod_nonneg ((i:ℤ) - m) hnz.ne'
+  have h1' := Int.emod_lt_of_pos ((j:ℤ) - m) hnz
+  have h2' := Int.emod_lt_of_pos ((i:ℤ) - m) hnz
+  rw [← Int.toNat_of_nonneg h1, ← Int.toNat_of_nonneg h2]
+  rw [idft2_dft2 M n _ _ (by omega) (by omega)]
+  rfl
+
+/-- index of bin `k` in `numpy.fft.fftfreq(n, d)·(n d)`: bins in the upper half are aliased
+to negative frequencies -/
+def fftfreqIdx (n k : ℕ) : ℤ := if 2 * k < n then k else (k : ℤ) - n
+
+/-- the phase factor `freqshift[k₁,k₂] = exp(-2πi (freq[k₁] + freq[k₂]) φ)` of `rotate_matrix`,
+with `freq = fftfreq(n, 2π/n)` (so `freq[k] = fftfreqIdx n k / 2π`) and `φ = 2π m / n`, is the
+product of the two factors of `idft2_shift` / `rotate_shift`: the aliasing is invisible -/
+theorem freqshift_eq (n : ℕ) (hn : n ≠ 0) (m : ℤ) (k₁ k₂ : ℕ) :
+    exp (-(2 * π * I * (((fftfreqIdx n k₁ : ℂ) / (2 * π) + (fftfreqIdx n k₂ : ℂ) / (2 * π))
+        * (2 * π * m / n)))) =
+      exp (-(2 * π * I * (m * k₁ / n))) * exp (-(2 * π * I * (m * k₂ / n))) := by
+  have hn' : (n : ℂ) ≠ 0 := by exact_mod_cast hn
+  have hpi : (π : ℂ) ≠ 0 := by exact_mod_cast Real.pi_ne_zero
+  have key : ∀ k : ℕ, ∃ q : ℤ, (fftfreqIdx n k : ℂ) = k + q * n := by
+    intro k
+    unfold fftfreqIdx
+    split_ifs
+    · exact ⟨0, by simp⟩
+    · exact ⟨-1, by push_cast; ring⟩
+  obtain ⟨q₁, h₁⟩ := key k₁
+  obtain ⟨q₂, h₂⟩ := key k₂
+  rw [← exp_add, h₁, h₂]
+  have : -(2 * π * I * ((((k₁ : ℂ) + q₁ * n) / (2 * π) + ((k₂ : ℂ) + q₂ * n) / (2 * π)) * (2 * π * m / n)))
+      = -(2 * π * I * (m * k₁ / n)) + -(2 * π * I * (m * k₂ / n)) + ((-(q₁ + q₂) * m : ℤ) : ℂ) * (2 * π * I) := by
+    push_cast
+    field_simp
+    ring
+  rw [this, exp_add (_ + _), exp_int_mul_two_pi_mul_I, mul_one]
 end
 
+/-! ## The angle grid and the bilinear interpolation kernel -/
+
+section grid
+variable {K : Type} [Field K] [LinearOrder K] [IsStrictOrderedRing K] [FloorRing K]
+
+/-- exact floor and integer embedding of a floor ring -/
+def stdF : FOps K := { floor := Int.floor, ofInt := fun z => (z : K) }
+
+/-- with exact arithmetic the grid index is `⌊x⌋ mod n` and the fraction is the fractional
+part of `x = (θ + π)/dθ` -/
+theorem cell_eq_floor_fract (pi : K) (hpi : 0 < pi) (n : ℕ) (hn : 1 ≤ n) (θ : K) :
+    cell stdF pi n θ = ((⌊(θ + pi) / (2 * pi / n)⌋ % (n : ℤ)).toNat, Int.fract ((θ + pi) / (2 * pi / n))) := by
+  have hn' : (0:K) < n := by exact_mod_cast hn
+  have hd : (2 * pi / (n:K)) ≠ 0 := by positivity
+  simp only [cell, fdiv, fmod, stdF, Int.cast_ofNat, Int.cast_natCast]
+  congr 1
+  rw [Int.fract]
+  field_simp
+
+omit [IsStrictOrderedRing K] in
+/-- `θ_i = -π + i·dθ` -/
+theorem angle_std (pi : K) (n i : ℕ) : angle stdF pi n i = -pi + i * (2 * pi / n) := by
+  simp only [angle, stdF, Int.cast_natCast]
+  ring
+
+/-- **the cell of an arbitrary angle** (`interp_idx_range`): the index is always in range, the
+fraction is in `[0, 1)`, and `θ = θ_i + f·dθ + 2πq` for an integer `q` — also for negative
+angles and angles several periods away -/
+theorem cell_spec (pi : K) (hpi : 0 < pi) (n : ℕ) (hn : 1 ≤ n) (θ : K) :
+    (cell stdF pi n θ).1 < n ∧ 0 ≤ (cell stdF pi n θ).2 ∧ (cell stdF pi n θ).2 < 1 ∧
+    ∃ q : ℤ, θ + pi = 2 * pi / n * (q * n + (cell stdF pi n θ).1 + (cell stdF pi n θ).2) := by
+  have hn' : (0:K) < n := by exact_mod_cast hn
+  have hnz : (0:ℤ) < n := by exact_mod_cast hn
+  have hd : (2 * pi / (n:K)) ≠ 0 := by positivity
+  rw [cell_eq_floor_fract pi hpi n hn θ]
+  set x := (θ + pi) / (2 * pi / n) with hx
+  have h0 : 0 ≤ ⌊x⌋ % (n:ℤ) := Int.emod_nonneg _ hnz.ne'
+  have h1 : ⌊x⌋ % (n:ℤ) < n := Int.emod_lt_of_pos _ hnz
+  have ht : ((⌊x⌋ % (n:ℤ)).toNat : ℤ) = ⌊x⌋ % (n:ℤ) := Int.toNat_of_nonneg h0
+  refine ⟨?_, Int.fract_nonneg _, Int.fract_lt_one _, ⌊x⌋ / (n:ℤ), ?_⟩
+  · have : ((⌊x⌋ % (n:ℤ)).toNat : ℤ) < n := by rw [ht]; exact h1
+    exact_mod_cast this
+  · have hθ : θ + pi = 2 * pi / n * x := by rw [hx]; field_simp
+    have hfl : (⌊x⌋ : K) = ((⌊x⌋ / (n:ℤ) : ℤ) : K) * n + ((⌊x⌋ % (n:ℤ)).toNat : K) := by
+      have : ⌊x⌋ = (⌊x⌋ / (n:ℤ)) * n + ((⌊x⌋ % (n:ℤ)).toNat : ℤ) := by
+        rw [ht, mul_comm]; exact (Int.mul_ediv_add_emod _ _).symm
+      exact_mod_cast congrArg (Int.cast : ℤ → K) this
+    rw [hθ, ← hfl, Int.floor_add_fract]
+
+/-- the same, as a decomposition of the angle -/
+theorem cell_spec' (pi : K) (hpi : 0 < pi) (n : ℕ) (hn : 1 ≤ n) (θ : K) :
+    ∃ q : ℤ, θ = angle stdF pi n (cell stdF pi n θ).1 + (cell stdF pi n θ).2 * (2 * pi / n)
+      + 2 * pi * q := by
+  have hn' : (0:K) < n := by exact_mod_cast hn
+  obtain ⟨_, _, _, q, hq⟩ := cell_spec pi hpi n hn θ
+  refine ⟨q, ?_⟩
+  rw [angle_std]
+  have e : 2 * pi / n * ((q : K) * n) = 2 * pi * q := by field_simp
+  linear_combination hq + e
+
+/-- general form: in the cell of node `i` at fraction `a`, any period -/
+theorem cell_eq (pi : K) (hpi : 0 < pi) (n : ℕ) (i : ℕ) (hi : i < n) (a : K) (ha0 : 0 ≤ a)
+    (ha1 : a < 1) (k : ℤ) :
+    cell stdF pi n (angle stdF pi n i + a * (2 * pi / n) + 2 * pi * k) = (i, a) := by
+  have hn : 1 ≤ n := by omega
+  have hn' : (0:K) < n := by exact_mod_cast hn
+  have hd : (2 * pi / (n:K)) ≠ 0 := by positivity
+  rw [cell_eq_floor_fract pi hpi n hn, angle_std]
+  have hx : (-pi + i * (2 * pi / n) + a * (2 * pi / n) + 2 * pi * k + pi) / (2 * pi / n)
+      = a + ((i + n * k : ℤ) : K) := by
+    push_cast
+    field_simp
+    ring
+  rw [hx, Int.floor_add_intCast, Int.fract_add_intCast]
+  have hfl : ⌊a⌋ = 0 := by
+    rw [Int.floor_eq_iff]; constructor <;> simp [ha0, ha1]
+  have hfr : Int.fract a = a := by rw [Int.fract, hfl]; simp
+  rw [hfl, hfr, zero_add, Int.add_mul_emod_self_left, Int.emod_eq_of_lt (by omega) (by omega)]
+  simp
+
+/-- exactly on a grid node, in any period, the cell is `(i, 0)`; in particular the seam
+`θ = -π + 2πk` (and so `θ = π`) gives index `0` -/
+theorem cell_node (pi : K) (hpi : 0 < pi) (n : ℕ) (i : ℕ) (hi : i < n) (k : ℤ) :
+    cell stdF pi n (angle stdF pi n i + 2 * pi * k) = (i, 0) := by
+  have := cell_eq pi hpi n i hi 0 le_rfl zero_lt_one k
+  simpa using this
+
+/-- index and fraction are `2π`-periodic in the angle -/
+theorem cell_periodic (pi : K) (hpi : 0 < pi) (n : ℕ) (hn : 1 ≤ n) (θ : K) (k : ℤ) :
+    cell stdF pi n (θ + 2 * pi * k) = cell stdF pi n θ := by
+  have hn' : (0:K) < n := by exact_mod_cast hn
+  have hd : (2 * pi / (n:K)) ≠ 0 := by positivity
+  rw [cell_eq_floor_fract pi hpi n hn, cell_eq_floor_fract pi hpi n hn]
+  have hx : (θ + 2 * pi * k + pi) / (2 * pi / n) = (θ + pi) / (2 * pi / n) + ((n * k : ℤ) : K) := by
+    push_cast
+    field_simp
+    ring
+  rw [hx, Int.floor_add_intCast, Int.fract_add_intCast, Int.add_mul_emod_self_left]
+
+/-- **bilinear in the cell**, with the neighbours of the last node wrapping round to index `0`
+(the `±π` seam); the angles may be given in any period -/
+theorem interp_bilinear_period (pi : K) (hpi : 0 < pi) (n : ℕ) (m : ℕ → ℕ → K) (i j : ℕ)
+    (hi : i < n) (hj : j < n) (a b : K) (ha0 : 0 ≤ a) (ha1 : a < 1) (hb0 : 0 ≤ b) (hb1 : b < 1)
+    (k k' : ℤ) :
+    interp stdF pi n m (angle stdF pi n i + a * (2 * pi / n) + 2 * pi * k)
+        (angle stdF pi n j + b * (2 * pi / n) + 2 * pi * k') =
+      (1 - a) * (1 - b) * m j i + a * (1 - b) * m j (if i = n - 1 then 0 else i + 1)
+      + (1 - a) * b * m (if j = n - 1 then 0 else j + 1) i
+      + a * b * m (if j = n - 1 then 0 else j + 1) (if i = n - 1 then 0 else i + 1) := by
+  rw [interp_eq_cells, cell_eq pi hpi n i hi a ha0 ha1 k, cell_eq pi hpi n j hj b hb0 hb1 k']
+
+/-- **bilinear in the cell** (`interp_bilinear_period` in the base period) -/
+theorem interp_bilinear (pi : K) (hpi : 0 < pi) (n : ℕ) (m : ℕ → ℕ → K) (i j : ℕ)
+    (hi : i < n) (hj : j < n) (a b : K) (ha0 : 0 ≤ a) (ha1 : a < 1) (hb0 : 0 ≤ b) (hb1 : b < 1) :
+    interp stdF pi n m (angle stdF pi n i + a * (2 * pi / n))
+        (angle stdF pi n j + b * (2 * pi / n)) =
+      (1 - a) * (1 - b) * m j i + a * (1 - b) * m j (if i = n - 1 then 0 else i + 1)
+      + (1 - a) * b * m (if j = n - 1 then 0 else j + 1) i
+      + a * b * m (if j = n - 1 then 0 else j + 1) (if i = n - 1 then 0 else i + 1) := by
+  have := interp_bilinear_period pi hpi n m i j hi hj a b ha0 ha1 hb0 hb1 0 0
+  simpa using this
+
+/-- **the interpolant reproduces the matrix entries at the nodes** (index order:
+`m out_index inc_index`), in any period -/
+theorem interp_node (pi : K) (hpi : 0 < pi) (n : ℕ) (m : ℕ → ℕ → K) (i j : ℕ)
+    (hi : i < n) (hj : j < n) (k k' : ℤ) :
+    interp stdF pi n m (angle stdF pi n i + 2 * pi * k) (angle stdF pi n j + 2 * pi * k') = m j i := by
+  have := interp_bilinear_period pi hpi n m i j hi hj 0 0 le_rfl zero_lt_one le_rfl zero_lt_one k k'
+  simpa using this
+
+/-- **the interpolant is `2π`-periodic in both angles** -/
+theorem interp_periodic (pi : K) (hpi : 0 < pi) (n : ℕ) (hn : 1 ≤ n) (m : ℕ → ℕ → K)
+    (inc out : K) (k : ℤ) :
+    interp stdF pi n m (inc + 2 * pi * k) out = interp stdF pi n m inc out ∧
+    interp stdF pi n m inc (out + 2 * pi * k) = interp stdF pi n m inc out := by
+  simp only [interp_eq_cells, cell_periodic pi hpi n hn, and_self]
+
+/-- all four matrix indices used by `interp` are in range, for any angle (negative, several
+periods away, ...) -/
+theorem interp_idx_range (pi : K) (hpi : 0 < pi) (n : ℕ) (hn : 1 ≤ n) (θ : K) :
+    (cell stdF pi n θ).1 < n ∧
+      (if (cell stdF pi n θ).1 = n - 1 then 0 else (cell stdF pi n θ).1 + 1) < n := by
+  have h := (cell_spec pi hpi n hn θ).1
+  refine ⟨h, ?_⟩
+  split_ifs <;> omega
+
+/-- at the grid nodes the interpolated matrix of a function returns the function -/
+theorem interp_asMatrix_node (pi : K) (hpi : 0 < pi) (n : ℕ) (f : K → K → K) (i j : ℕ)
+    (hi : i < n) (hj : j < n) (k k' : ℤ) :
+    interp stdF pi n (asMatrix stdF pi n f) (angle stdF pi n i + 2 * pi * k)
+      (angle stdF pi n j + 2 * pi * k') = f (angle stdF pi n i) (angle stdF pi n j) := by
+  rw [interp_node pi hpi n _ i j hi hj]
+  rfl
+
+omit [Field K] [LinearOrder K] [IsStrictOrderedRing K] [FloorRing K] in
+/-- rotation by `k` grid steps is the circular shift of both indices by `k` -/
+theorem rotateShift_spec (n : ℕ) (m : ℕ → ℕ → K) (k : ℤ) (j i : ℕ) :
+    rotateShift n m k j i = m (((j : ℤ) - k) % n).toNat (((i : ℤ) - k) % n).toNat := rfl
+
+omit [IsStrictOrderedRing K] in
+/-- the grid angle with circularly shifted index is the rotated angle, up to a period -/
+theorem angle_shift (pi : K) (n : ℕ) (hn : 1 ≤ n) (i : ℕ) (k : ℤ) :
+    angle stdF pi n (((i : ℤ) - k) % n).toNat
+      = angle stdF pi n i - k * (2 * pi / n) + 2 * pi * (-(((i : ℤ) - k) / n) : ℤ) := by
+  have hn' : (n:K) ≠ 0 := by exact_mod_cast (by omega : n ≠ 0)
+  have hnz : (n:ℤ) ≠ 0 := by exact_mod_cast (by omega : n ≠ 0)
+  have h0 := Int.emod_nonneg ((i:ℤ) - k) hnz
+  have e : (((((i : ℤ) - k) % n).toNat : ℤ)) = (i : ℤ) - k - n * (((i : ℤ) - k) / n) := by
+    rw [Int.toNat_of_nonneg h0, Int.emod_def]
+  have e' : (((((i : ℤ) - k) % n).toNat : ℕ) : K) = (i : K) - k - n * ((((i : ℤ) - k) / n : ℤ) : K) := by
+    exact_mod_cast congrArg (Int.cast : ℤ → K) e
+  rw [angle_std, angle_std, e']
+  push_cast
+  field_simp
+  ring
+
+omit [IsStrictOrderedRing K] in
+/-- **rotation of the scatterer**: for a scattering function that is `2π`-periodic in both
+angles, shifting both indices by `k` gives the matrix of `S'(θ₁, θ₂) = S(θ₁ − φ, θ₂ − φ)`,
+`φ = k·dθ` -/
+theorem rotateShift_asMatrix (pi : K) (n : ℕ) (hn : 1 ≤ n) (f : K → K → K)
+    (hper₁ : ∀ x y (q : ℤ), f (x + 2 * pi * q) y = f x y)
+    (hper₂ : ∀ x y (q : ℤ), f x (y + 2 * pi * q) = f x y) (k : ℤ) (j i : ℕ) :
+    rotateShift n (asMatrix stdF pi n f) k j i
+      = asMatrix stdF pi n (fun x y => f (x - k * (2 * pi / n)) (y - k * (2 * pi / n))) j i := by
+  simp only [rotateShift, asMatrix]
+  rw [angle_shift pi n hn i k, angle_shift pi n hn j k, hper₁, hper₂]
+end grid
+
+/-! ## Interpolation in frequency -/
+
+section freq
+variable {K : Type} [Field K] [LinearOrder K]
+
+/-- a single frequency sample is used at every frequency -/
+theorem freq_single (f0 v f : K) : freqInterp [f0] [v] f = some v := rfl
+
+/-- **the segment used by `freqInterp`**: for strictly increasing `freqs`, the chord of segment
+`k` is returned whenever `f` lies in `[freqs[k], freqs[k+1]]`, where the first segment is
+extended to `-∞` and the last one to `+∞` -/
+theorem freq_segment (freqs vals : List K) (hlen : freqs.length = vals.length)
+    (hs : freqs.Pairwise (· < ·)) (k : ℕ) (hk : k + 1 < freqs.length) (f : K)
+    (hlo : k = 0 ∨ freqs[k] ≤ f) (hhi : k + 2 = freqs.length ∨ f ≤ freqs[k+1]) :
+    freqInterp freqs vals f =
+      some (vals[k] + (vals[k+1] - vals[k]) * (f - freqs[k]) / (freqs[k+1] - freqs[k])) := by
+  match freqs, vals, hlen, hs, hk, hlo, hhi with
+  | f0 :: f1 :: fr, v0 :: v1 :: vr, hlen, hs, hk, hlo, hhi =>
+    rw [freqInterp_cons2, freqInterp_go_spec f fr vr f0 f1 v0 v1 (by simpa using hlen) hs k hk hlo hhi]
+  | [_], _, _, _, hk, _, _ => simp at hk
+  | [], _, _, _, hk, _, _ => simp at hk
+  | _ :: _ :: _, [_], hlen, _, _, _, _ => simp at hlen
+  | _ :: _ :: _, [], hlen, _, _, _, _ => simp at hlen
+
+/-- **linear between neighbouring samples** -/
+theorem freq_linear (freqs vals : List K) (hlen : freqs.length = vals.length)
+    (hs : freqs.Pairwise (· < ·)) (k : ℕ) (hk : k + 1 < freqs.length) (f : K)
+    (hlo : freqs[k] ≤ f) (hhi : f ≤ freqs[k+1]) :
+    freqInterp freqs vals f =
+      some (vals[k] + (vals[k+1] - vals[k]) * (f - freqs[k]) / (freqs[k+1] - freqs[k])) :=
+  freq_segment freqs vals hlen hs k hk f (Or.inr hlo) (Or.inr hhi)
+
+/-- below the first sample the first segment is extrapolated -/
+theorem freq_extrapolate_below (freqs vals : List K) (hlen : freqs.length = vals.length)
+    (hs : freqs.Pairwise (· < ·)) (h2 : 2 ≤ freqs.length) (f : K) (hf : f ≤ freqs[0]) :
+    freqInterp freqs vals f =
+      some (vals[0] + (vals[1] - vals[0]) * (f - freqs[0]) / (freqs[1] - freqs[0])) := by
+  have h01 : freqs[0] < freqs[1] := List.pairwise_iff_getElem.1 hs 0 1 _ _ Nat.zero_lt_one
+  exact freq_segment freqs vals hlen hs 0 (by omega) f (Or.inl rfl) (Or.inr (hf.trans h01.le))
+
+/-- above the last sample the last segment is extrapolated -/
+theorem freq_extrapolate_above (freqs vals : List K) (hlen : freqs.length = vals.length)
+    (hs : freqs.Pairwise (· < ·)) (h2 : 2 ≤ freqs.length) (f : K)
+    (hf : freqs[freqs.length - 1] ≤ f) :
+    freqInterp freqs vals f =
+      some (vals[freqs.length - 2] + (vals[freqs.length - 2 + 1] - vals[freqs.length - 2])
+        * (f - freqs[freqs.length - 2]) / (freqs[freqs.length - 2 + 1] - freqs[freqs.length - 2])) := by
+  have h01 : freqs[freqs.length - 2] < freqs[freqs.length - 1] :=
+    List.pairwise_iff_getElem.1 hs _ _ _ _ (by omega)
+  exact freq_segment freqs vals hlen hs (freqs.length - 2) (by omega) f
+    (Or.inr (h01.le.trans hf)) (Or.inl (by omega))
+
+/-- **the data are reproduced at the sampled frequencies** -/
+theorem freq_node (freqs vals : List K) (hlen : freqs.length = vals.length)
+    (hs : freqs.Pairwise (· < ·)) (h2 : 2 ≤ freqs.length) (k : ℕ) (hk : k < freqs.length) :
+    freqInterp freqs vals freqs[k] = some vals[k] := by
+  by_cases hk1 : k + 1 < freqs.length
+  · have h01 : freqs[k] < freqs[k+1] := List.pairwise_iff_getElem.1 hs _ _ _ _ (Nat.lt_succ_self k)
+    rw [freq_segment freqs vals hlen hs k hk1 freqs[k] (Or.inr le_rfl) (Or.inr h01.le)]
+    simp
+  · obtain ⟨k', rfl⟩ : ∃ k', k = k' + 1 := ⟨k - 1, by omega⟩
+    have h01 : freqs[k'] < freqs[k'+1] := List.pairwise_iff_getElem.1 hs _ _ _ _ (Nat.lt_succ_self k')
+    rw [freq_segment freqs vals hlen hs k' hk freqs[k'+1] (Or.inr h01.le) (Or.inl (by omega))]
+    have e : freqs[k'+1] - freqs[k'] ≠ 0 := sub_ne_zero.2 h01.ne'
+    congr 1
+    field_simp
+    ring
+end freq
+
+/-! ## Non-vacuity: the model evaluated on rational data -/
+
+section examples
+private theorem t2 : Int.toNat 2 = 2 := rfl
+/-- a 3×3 test matrix, `M[j][i] = 10 j + i` -/
+def M3 : ℕ → ℕ → ℚ := fun j i => 10 * j + i
+
+example : cell stdF (22/7 : ℚ) 3 (-22/7) = (0, 0) := by
+  norm_num [cell, fdiv, fmod, stdF]
+example : cell stdF (22/7 : ℚ) 3 (22/7) = (0, 0) := by
+  norm_num [cell, fdiv, fmod, stdF]
+example : cell stdF (22/7 : ℚ) 3 (-100) = (1, 17/22) := by
+  norm_num [cell, fdiv, fmod, stdF]
+example : angle stdF (22/7 : ℚ) 3 2 = 22/21 := by norm_num [angle, stdF]
+-- node values, also several periods away
+example : interp stdF (22/7 : ℚ) 3 M3 (22/21) (-22/21) = M3 1 2 := by
+  norm_num [interp, cell, fdiv, fmod, stdF, M3, t2]
+example : interp stdF (22/7 : ℚ) 3 M3 (22/21 + 5 * (44/7)) (-22/21 - 3 * (44/7)) = 12 := by
+  norm_num [interp, cell, fdiv, fmod, stdF, M3, t2]
+-- the middle of the last cell in both directions wraps round to index 0
+example : interp stdF (22/7 : ℚ) 3 M3 (22/21 + 22/21) (22/21 + 22/21)
+    = (M3 2 2 + M3 2 0 + M3 0 2 + M3 0 0) / 4 := by
+  norm_num [interp, cell, fdiv, fmod, stdF, M3, t2]
+example : rotateShift 3 M3 1 0 0 = M3 2 2 := by norm_num [rotateShift, M3, t2]
+example : rotateShift 3 M3 (-4) 2 1 = M3 0 2 := by norm_num [rotateShift, M3, t2]
+example : freqInterp [(1:ℚ), 2, 4] [10, 20, 0] 3 = some 10 := by norm_num [freqInterp, freqInterp.go]
+example : freqInterp [(1:ℚ), 2, 4] [10, 20, 0] 5 = some (-10) := by norm_num [freqInterp, freqInterp.go]
+example : freqInterp [(1:ℚ), 2, 4] [10, 20, 0] 0 = some 0 := by norm_num [freqInterp, freqInterp.go]
+example : freqInterp [(1:ℚ), 2, 4] [10, 20, 0] 2 = some 20 := by norm_num [freqInterp, freqInterp.go]
+example : freqInterp ([] : List ℚ) [] 2 = none := rfl
+
+-- the general theorems instantiated on the same data (their hypotheses are satisfiable)
+example : (cell stdF (22/7 : ℚ) 3 (-100)).1 < 3 :=
+  (cell_spec (22/7) (by norm_num) 3 (by norm_num) (-100)).1
+example : interp stdF (22/7 : ℚ) 3 M3 (angle stdF (22/7) 3 2 + 2 * (22/7) * ((5 : ℤ) : ℚ))
+    (angle stdF (22/7) 3 1 + 2 * (22/7) * ((-3 : ℤ) : ℚ)) = M3 1 2 :=
+  interp_node (22/7) (by norm_num) 3 M3 2 1 (by norm_num) (by norm_num) 5 (-3)
+example : freqInterp [(1:ℚ), 2, 4] [10, 20, 0] ([(1:ℚ), 2, 4][1]) = some ([(10:ℚ), 20, 0][1]) :=
+  freq_node [1, 2, 4] [10, 20, 0] rfl (by norm_num) (by simp) 1 (by simp)
+end examples
 end Arim.C10
